@@ -380,12 +380,15 @@ var c17Spacer = strings.NewReplacer(".", " .\t", "[", " [ ", "]", "\n]", "=", " 
 var c17Lexemes = []string{"T", "k", "k2", "{", "}", "=", ",", ".", "[", "]", `"s\n\/\\\""`, "7", "-0x1F", "+.5e-3", "\"é\\t☺\xff\""}
 
 func init() {
-	definePart("C17", "c17/token-sequences", "qt", "every sequence of <= 6 (thorough 7) tokens over 15 lexemes, two spacings",
+	definePart("C17", "c17/token-sequences", "qt", "every sequence of <= 5 tokens over 15 lexemes (two spacings) and of 6 tokens over 10 of them (thorough: <= 7 over all 15)",
 		func(tier string, yield func(string)) {
-			n := 6
+			// quick: every sequence of <= 5 tokens over all 15 lexemes, and of exactly 6 tokens over the 10
+			// lexemes that can form a complete expression of that length; thorough: <= 7 over all 15
+			n, full := 6, 5
 			if tier == "thorough" {
-				n = 7
+				n, full = 7, 7
 			}
+			reduced := []int{0, 1, 3, 4, 5, 6, 7, 10, 11, 14}
 			idx := make([]int, n)
 			var rec func(l, d int)
 			rec = func(l, d int) {
@@ -400,9 +403,16 @@ func init() {
 					}
 					return
 				}
-				for i := range c17Lexemes {
-					idx[d] = i
-					rec(l, d+1)
+				if l <= full {
+					for i := range c17Lexemes {
+						idx[d] = i
+						rec(l, d+1)
+					}
+				} else {
+					for _, i := range reduced {
+						idx[d] = i
+						rec(l, d+1)
+					}
 				}
 			}
 			for l := 0; l <= n; l++ {
